@@ -202,7 +202,7 @@ def unsat_biased_clauses(rng, nvars):
 # ------------------------------------------------------------------------------------------------
 # running
 # ------------------------------------------------------------------------------------------------
-def run_impl(lines, timeout_case=20, chunks=None):
+def run_impl(lines, timeout_case=20, chunks=None, _retry=True):
     """run the implementation runner in parallel processes; returns answers in order"""
     if not lines:
         return []
@@ -221,11 +221,18 @@ def run_impl(lines, timeout_case=20, chunks=None):
     with ThreadPoolExecutor(max_workers=len(parts)) as ex:
         outs = list(ex.map(one, parts))
     if len(parts) == 1:
-        return outs[0]
-    res = [None] * len(lines)
-    for k, o in enumerate(outs):
-        for idx, a in enumerate(o):
-            res[k + idx * chunks] = a
+        res = outs[0]
+    else:
+        res = [None] * len(lines)
+        for k, o in enumerate(outs):
+            for idx, a in enumerate(o):
+                res[k + idx * chunks] = a
+    # a runner process that died leaves `<missing>` answers: retry those lines once, in fresh processes
+    miss = [k for k, a in enumerate(res) if a is None or a.startswith('<missing>')]
+    if miss and _retry:
+        again = run_impl([lines[k] for k in miss], timeout_case, chunks, _retry=False)
+        for k, a in zip(miss, again):
+            res[k] = a
     return res
 
 
@@ -242,6 +249,12 @@ def run_model(mlref, lines, pinned=False):
         o = o + ['<missing>'] * (len(parts[k]) - len(o))
         for idx, a in enumerate(o):
             res[k + idx * chunks] = a
+    miss = [k for k, a in enumerate(res) if a is None or a.startswith('<missing>')]
+    if miss:      # a driver process died: retry those lines once
+        again = C.run_lines(mlref, [lines[k] for k in miss], args=args)
+        again = again + ['<missing>'] * (len(miss) - len(again))
+        for k, a in zip(miss, again):
+            res[k] = a
     return res
 
 
@@ -448,7 +461,7 @@ def run(tier, seed):
     if tier == 'thorough' and not proof_broken:
         rc, o, e = C.sh('timeout 900 coqchk -silent -o -Q . Pi2 Pi2.Props.C09', cwd=C.COQ, timeout=930)
         coqchk = (o + e)[-600:]
-        if rc != 0 or '* Axioms: <none>' not in o:
+        if rc != 0 or '* Axioms: <none>' not in (o + e):
             proof_broken = True
             R.notes.append('coqchk failed or reports axioms: ' + coqchk)
 
